@@ -17,7 +17,7 @@ import (
 
 // Fail is a coded failure predicate on the element
 type Fail struct {
-	Kind string `json:"kind"` // none | modeq | in
+	Kind string `json:"kind"` // none | modeq | in | ge
 	M    int    `json:"m,omitempty"`
 	R    int    `json:"r,omitempty"`
 	Xs   []int  `json:"xs,omitempty"`
@@ -33,6 +33,8 @@ func (f Fail) fails(x int) bool {
 				return true
 			}
 		}
+	case "ge":
+		return x >= f.M // fails for ever from some point on (an exhausted source)
 	}
 	return false
 }
@@ -295,7 +297,15 @@ func build(ctx context.Context, s *Stage, ins []chan int, c *calls) []output {
 	case "takewhile":
 		return []output{outInt(pipe.TakeWhile(ctx, roIns[0], pipe.Lift(s.predE(c))))}
 	case "foreach":
-		return []output{outUnit(pipe.ForEach(ctx, roIns[0], pipe.Lift(func(x int) (int, error) { c.enter(x); return x, nil })))}
+		// ForEach ignores what its function returns - also an error, under Lift as under Try
+		fe := func(x int) (int, error) {
+			c.enter(x)
+			if s.Fail != nil && s.Fail.fails(x) {
+				return 0, errVal(1000 + x)
+			}
+			return x, nil
+		}
+		return []output{outUnit(pipe.ForEach(ctx, roIns[0], lift(fe)))}
 	case "void":
 		return []output{outUnit(pipe.Void(ctx, roIns[0]))}
 	case "fold":
@@ -373,7 +383,17 @@ func build(ctx context.Context, s *Stage, ins []chan int, c *calls) []output {
 			l, r := fork.Partition(ctx, s.Par, roIns[0], fork.Lift(in.predE(c)))
 			return []output{outInt(l), outInt(r)}
 		case "foreach":
-			return []output{outUnit(fork.ForEach(ctx, s.Par, roIns[0], fork.Lift(func(x int) (int, error) { c.enter(x); return x, nil })))}
+			fe := func(x int) (int, error) {
+				c.enter(x)
+				if in.Fail != nil && in.Fail.fails(x) {
+					return 0, errVal(1000 + x)
+				}
+				return x, nil
+			}
+			if in.Try {
+				return []output{outUnit(fork.ForEach(ctx, s.Par, roIns[0], fork.Try(fe)))}
+			}
+			return []output{outUnit(fork.ForEach(ctx, s.Par, roIns[0], fork.Lift(fe)))}
 		case "void":
 			return []output{outUnit(fork.Void(ctx, s.Par, roIns[0]))}
 		}
